@@ -224,6 +224,24 @@ func place(lines []string, placement int) string {
 }
 
 func runC17(r *core.Run) {
+	for _, cn := range []string{"gfm+align=attr", "all+align=style"} {
+		sharedContextSub(r, "shared-context/"+cn, "every rendered table is rectangular and every AST table row as wide as its table", core.MustCfg(cn), c12StructuredDocs(r.Quick()),
+			func(s *core.Sub, cfg core.Cfg, d, out []byte, tree ast.Node, hist []string) {
+				toks, lerr := strict.Tokenize(out)
+				if lerr != nil {
+					s.Violate("lex:"+lerr.Code+"|shared-context", cfg.String(), d, hist, lerr.Error(), "", string(out))
+					return
+				}
+				for _, sh := range tableShapes(toks) {
+					for _, p := range genericTableProblems(sh) {
+						s.Violate(p+"|shared-context", cfg.String(), d, hist, "rendered table is not rectangular / well-formed: "+p, "one header row, all body rows as wide as the header", string(out))
+					}
+				}
+				for _, p := range astTableProblems(tree) {
+					s.Violate(p+"|shared-context", cfg.String(), d, hist, "AST table row width differs from the column count", "", string(out))
+				}
+			})
+	}
 	runC17Volume(r)
 	maxRows := core.Pick(r, 1, 2)
 	type combo struct {
